@@ -176,8 +176,8 @@ func runC19(ctx *Ctx) error {
 			bs[k] = byte(r.Intn(256))
 		}
 		var m struct {
-			B64     string `json:"b64"`
-			Chunks  []int  `json:"chunks"`
+			B64     string  `json:"b64"`
+			Chunks  []int   `json:"chunks"`
 			Decoded *string `json:"decoded"`
 		}
 		if err := ctx.Model(map[string]interface{}{"fn": "embed", "bytes": fmt.Sprintf("%x", bs)}, &m); err != nil {
